@@ -142,13 +142,20 @@ def recv_value_cb(m, p):
     _add(p, 'received', m.rvaladd)
 
 
-def gate_pred(gate, part, m=2, neg=False):
-    return (part_index(part) % m == 0) != neg
+# what a user-written decider may hand back for "no" / "yes": the gate goes by truthiness
+NO = [False, None, 0, '', []]
+YES = [True, 1, 'yes', [0]]
 
 
-def quality_pred(gate, part, q=2, neg=False):
+def gate_pred(gate, part, m=2, neg=False, style=0):
+    ok = (part_index(part) % m == 0) != neg
+    return YES[style % 4] if ok else NO[style % 5]
+
+
+def quality_pred(gate, part, q=2, neg=False, style=0):
     """Gate on the part's (mutable) state: quality reached q. The complementary gate has neg=True."""
-    return (part.quality >= q) != neg
+    ok = (part.quality >= q) != neg
+    return YES[style % 4] if ok else NO[style % 5]
 
 
 def add_quality_cb(m, p):
@@ -256,9 +263,9 @@ class Model:
         elif k == 'G':
             from functools import partial
             if 'q' in d:
-                o = DecisionGate(d['n'], up, partial(quality_pred, q=d['q'], neg=d['neg']))
+                o = DecisionGate(d['n'], up, partial(quality_pred, q=d['q'], neg=d['neg'], style=d.get('style', 0)))
             else:
-                o = DecisionGate(d['n'], up, partial(gate_pred, m=d['mod'], neg=d['neg']))
+                o = DecisionGate(d['n'], up, partial(gate_pred, m=d['mod'], neg=d['neg'], style=d.get('style', 0)))
         elif k == 'GP':
             o = self.D[d['g']].get_new_group_path(d['n'], up)
         elif k == 'K':
@@ -276,6 +283,11 @@ class Model:
         self.group_of[d['n']] = in_group
 
     def _first(self, dev, part):
+        # a caller may do what it likes with the list the routing_history accessor returns
+        h = part.routing_history
+        h.reverse()
+        h.append('scribble')
+        del h[:1]
         for f in self.pre:
             f(dev, part)
 
